@@ -16,7 +16,7 @@ func init() {
 		Explain: "Decided. Scan side: D1 effect inventory — in all first-party code reachable (CHA) from the methods of every registered filesystem extractor and from filesystem.Run, the only calls of file-system-mutating primitives (os.Create/OpenFile-for-write/WriteFile/Mkdir*/Remove*/Rename/Symlink/Link/Chmod/Chown/Chtimes/Truncate/Chdir, temp-file creators, exec.Command*, database opens) are the audited ones: the temp copy in ScanInput.GetRealPath and the RemoveAll of that temp dir in its callers; " +
 			"D2 database opens are read-only: every bbolt.Open passes Options{ReadOnly: true}; D3 temp pairing — every caller of GetRealPath removes filepath.Dir(<the returned path>) on all exits when the root is virtual, and GetRealPath removes its directory on its own error exits. " +
 			"Image side: D4 in unpack every os.MkdirAll/WriteFile/Symlink is reachable only after the entry name passed the lexical '..' test and pathOutsideBaseDirectory(dir, fullPath) returned false for that path; D5 the containment decision is filepath.Rel-based and rejects both rel == \"..\" and the \"../\" prefix, errors count as outside; D6 layer scanning writes only below filepath.Join(<layer dir>, cleaned name) after the '../' test, creates no symlinks or hard links on disk, every error exit after the temp dir was created passes the clean-up, UnpackSquashed removes its temp dir. " +
-			"Added in round 2: D7 symlink.TargetOutsideRoot answers on every path with the marker test on the joined, cleaned path of the target. NOT decided: effects inside third-party callees (go-rpmdb's sqlite backend, saferwall/pe), symlink targets that resolve outside only through directories changed by later entries, detectors and standalone extractors (outside the scan clause checked here).",
+			"Added in round 2: D7 symlink.TargetOutsideRoot answers on every path with the marker test on the joined, cleaned path of the target. Added in round 3: D8 a link name is re-rooted under the target directory exactly when it is absolute (the reading TargetOutsideRoot assumes). NOT decided: effects inside third-party callees (go-rpmdb's sqlite backend, saferwall/pe), symlink targets that resolve outside only through directories changed by later entries, detectors and standalone extractors (outside the scan clause checked here).",
 		Assume:       []string{"effects inside third-party functions are not explored; their open modes are trusted rows (rpmdb.Open, pe.New)"},
 		ThoroughGOOS: []string{"linux", "windows", "darwin"},
 		Run:          runC06,
